@@ -43,6 +43,8 @@ func runC11(c *Ctx) {
 	// ... and every entry the walk reports was put to the matchers Open
 	// consults, itself - not its parent (shared with C10)
 	r10_14(c, "R11.14")
+	// an empty include list is no filter, not a filter that hides everything (shared with C10)
+	r10_16(c, "R11.15")
 	// a promoted link member is requested like any regular file: ids are
 	// zero-based STAT positions on both ends (shared with C06/C07)
 	idNumbering(c, "R11.11", "R11.12", "R11.13")
